@@ -34,7 +34,7 @@ fn idx(u: &mut Unstructured, n: usize) -> R<usize> {
 
 fn op(u: &mut Unstructured, n: usize, f: Fam) -> R<Op> {
     let size = 1usize << n;
-    let tag = u.int_in_range(0u8..=47)?;
+    let tag = u.int_in_range(0u8..=48)?;
     let k_arg = |u: &mut Unstructured| -> R<usize> {
         Ok(match u.int_in_range(0u8..=5)? {
             0 => 63,
@@ -129,6 +129,7 @@ fn op(u: &mut Unstructured, n: usize, f: Fam) -> R<Op> {
         44 => Op::Display,
         45 => needs_var(Op::TopDecomp(idx(u, n)?)),
         46 => Op::Rel,
+        48 => Op::ConvertTo(u.int_in_range(0usize..=12)?),
         _ => Op::Binary,
     })
 }
